@@ -462,12 +462,18 @@ fn pretty_print_rustfmt(tokens: TokenStream) -> String {
     {
         #[cfg(feature = "verif")]
         verif::failpoint("rustfmt_spawned");
+        // The formatter may exit early, so writing to stdin can fail.
         let stdin = proc.stdin.as_mut().unwrap();
-        stdin.write_all(value.as_bytes()).unwrap();
+        let written = stdin.write_all(value.as_bytes());
 
-        let output = proc.wait_with_output().unwrap();
-        if output.status.success() {
-            return String::from_utf8(output.stdout).unwrap();
+        // Always wait on the child to avoid leaving a zombie process.
+        if let (Ok(_), Ok(output)) = (written, proc.wait_with_output()) {
+            // Fall back to the unformatted code if formatting produced no usable output.
+            if output.status.success() && !output.stdout.is_empty() {
+                if let Ok(formatted) = String::from_utf8(output.stdout) {
+                    return formatted;
+                }
+            }
         }
     }
     value.to_string()
